@@ -137,6 +137,31 @@ func (f *faultInjector) unhideRHT() {
 	}
 }
 
+// failReadsRHT makes every SELECT on a node table fail at run time while INSERTs still work: the table is renamed and
+// replaced by a view whose query raises "integer overflow", with an INSTEAD OF INSERT trigger that writes through.
+func (f *faultInjector) failReadsRHT() int {
+	n := 0
+	for _, t := range f.tables {
+		if strings.HasSuffix(t, "rht") {
+			f.exec("ALTER TABLE " + t + " RENAME TO vf_hidden_" + t)
+			f.exec("CREATE VIEW " + t + " AS SELECT hash, left, right FROM vf_hidden_" + t + " WHERE abs(-9223372036854775807 - 1) >= 0")
+			f.exec("CREATE TRIGGER vf_wr_" + t + " INSTEAD OF INSERT ON " + t + " BEGIN INSERT INTO vf_hidden_" + t + " (hash, left, right) VALUES (NEW.hash, NEW.left, NEW.right); END")
+			n++
+		}
+	}
+	return n
+}
+
+func (f *faultInjector) restoreReadsRHT() {
+	for _, t := range f.tables {
+		if strings.HasSuffix(t, "rht") {
+			f.exec("DROP TRIGGER IF EXISTS vf_wr_" + t)
+			f.exec("DROP VIEW IF EXISTS " + t)
+			f.exec("ALTER TABLE vf_hidden_" + t + " RENAME TO " + t)
+		}
+	}
+}
+
 func (f *faultInjector) restoreRHT() {
 	for _, t := range f.tables {
 		if strings.HasSuffix(t, "rht") {
@@ -272,6 +297,35 @@ func c07Prop(rt *rapid.T, rec *ev.Recorder) {
 		return true
 	}
 
+	// nodeReadFault: every read of a node table fails during one attempt while writes still work. The attempt either
+	// fails and leaves nothing behind, or - when it needs no node read - succeeds with exactly the fault-free result.
+	// Returns false when the block went in.
+	nodeReadFault := func(label string, restart bool) bool {
+		if restart {
+			if err := S.restart(); err != nil {
+				fatal(rt, "restart: %v", err)
+			}
+		}
+		pre := dumpTables(pathS, faultTables)
+		if inj.failReadsRHT() == 0 {
+			return true
+		}
+		err := S.process(tb)
+		inj.restoreReadsRHT()
+		rec.Class("fault_node_reads_fail")
+		if err == nil {
+			got := dumpTables(pathS, "rht", faultTables)
+			if d := diffDumps(got, twinAtTarget); d != "" {
+				fatal(rt, "[%s] %s: ProcessBlock(%s) succeeded while every read of the tree node tables failed, and recorded something else than a run without the failure (A=with failing reads, B=fault-free):\n%s", k, label, tb.brief(), d)
+			}
+			return false
+		}
+		if d := diffDumps(pre, dumpTables(pathS, faultTables)); d != "" {
+			fatal(rt, "[%s] %s: after a failed ProcessBlock(%s) (node reads failing: %v) part of the block is visible:\n%s", k, label, tb.brief(), err, d)
+		}
+		return true
+	}
+
 	inj.snapshotRHT()
 	undo := func() {
 		if err := S.reorg(tb.Num); err != nil {
@@ -304,6 +358,13 @@ func c07Prop(rt *rapid.T, rec *ev.Recorder) {
 				retryAndCheck(label)
 			}
 			undo()
+			for _, restart := range []bool{false, true} {
+				label = fmt.Sprintf("node reads failing (restart before: %v)", restart)
+				if nodeReadFault(label, restart) {
+					retryAndCheck(label)
+				}
+				undo()
+			}
 		}
 		rec.Class("enumerated_histories")
 		rec.ClassN("enumerated_faults", total)
@@ -311,7 +372,14 @@ func c07Prop(rt *rapid.T, rec *ev.Recorder) {
 		// a sequence of 1-3 faults (storage statement, cancelled context, cancellation racing the call), then retry
 		nf := rapid.IntRange(1, 3).Draw(rt, "nFaults")
 		for i := 0; i < nf && !completed; i++ {
-			switch rapid.IntRange(0, 4).Draw(rt, "faultKind") {
+			switch rapid.IntRange(0, 5).Draw(rt, "faultKind") {
+			case 5:
+				if leaves > 0 {
+					if !nodeReadFault(fmt.Sprintf("fault %d of %d in sequence, node reads failing", i+1, nf), rapid.Bool().Draw(rt, "restartBeforeReadFault")) {
+						completed = true
+					}
+					key += "Q,"
+				}
 			case 4:
 				if leaves > 0 {
 					if !nodeTableFault(fmt.Sprintf("fault %d of %d in sequence, node tables unavailable", i+1, nf)) {
